@@ -13,7 +13,7 @@ NEWNS = 'nsprobe'
 
 
 MOTIFS = {'twice': 0.1, 'mixed': 0.3, 'lonely': 0.45, 'refine': 0.6, 'hole': 0.75, 'nsexpr': 0.82, 'keys': 0.87, 'alias': 0.91, 'crossdir': 0.94, 'iponly': 0.97}
-WEIGHTS = [('twice', 2), ('mixed', 2), ('lonely', 1), ('refine', 3), ('hole', 2), ('nsexpr', 1), ('keys', 1), ('alias', 2), ('crossdir', 1), ('iponly', 1), ('none', 1)]
+WEIGHTS = [('twice', 2), ('mixed', 2), ('lonely', 1), ('refine', 3), ('hole', 2), ('nsexpr', 1), ('keys', 1), ('alias', 2), ('crossdir', 2), ('iponly', 1), ('none', 1)]
 
 
 def gen_case(r, big=False, motif=None):
